@@ -46,12 +46,49 @@ def _connected(n, edges):
     return len(seen) == n
 
 
+def _lc_solution_space_dim(n, e1, e2):
+    """dimension of the GF(2) solution space of the Van den Nest linear system for (G1, G2): 4n - rank, computed
+    here independently of graphiq (unknowns a_k, b_j, c_i, d_j; one equation per ordered pair (j, k))"""
+    def adj(e):
+        a = [[0] * n for _ in range(n)]
+        for (i, j), v in e.items():
+            a[i][j] = a[j][i] = int(v)
+        return a
+
+    g1, g2 = adj(e1), adj(e2)
+    rows = []
+    for j in range(n):
+        for k in range(n):
+            r = [0] * (4 * n)
+            r[4 * k + 0] ^= g1[j][k]
+            if j == k:
+                r[4 * j + 1] ^= 1
+            for i in range(n):
+                r[4 * i + 2] ^= g1[i][j] & g2[i][k]
+            r[4 * j + 3] ^= g2[j][k]
+            rows.append(r)
+    rank = 0
+    for col in range(4 * n):
+        piv = next((i for i in range(rank, len(rows)) if rows[i][col]), None)
+        if piv is None:
+            continue
+        rows[rank], rows[piv] = rows[piv], rows[rank]
+        for i in range(len(rows)):
+            if i != rank and rows[i][col]:
+                rows[i] = [x ^ y for x, y in zip(rows[i], rows[rank])]
+        rank += 1
+    return 4 * n - rank
+
+
 def f4_disconnected_false_no(h, viol, ftxt):
     """is_lc_equivalent(mode='deterministic') answers False although a valid local Clifford exists, for a
-    DISCONNECTED first graph (the 'sum of two basis vectors' shortcut when the solution space has dimension >= 5)"""
+    DISCONNECTED first graph whose solution space has dimension >= 5 (the 'sum of two basis vectors' shortcut).
+    A false "no" for a connected graph, or with a solution space of dimension <= 4 (where every solution is
+    enumerated), is NOT this finding and is reported as a violation."""
     if h.params.get("mode") != "deterministic":
         return False
     if not viol["name"].startswith("no-valid-local-Clifford-exists-when-answer-is-no"):
         return False
     n = h.params["n"]
-    return not _connected(n, _graph_edges(viol["model"], "A"))
+    e1, e2 = _graph_edges(viol["model"], "A"), _graph_edges(viol["model"], "B")
+    return (not _connected(n, e1)) and _lc_solution_space_dim(n, e1, e2) >= 5
